@@ -111,6 +111,10 @@ def safe_get(obj, instance, owner):
 def iter_call(obj):
     while True:
         yield obj
+        if isinstance(obj, type):
+            # calling a class goes through its metaclass to the constructor;
+            # a __call__ found on it is for calling its instances
+            return
         try:
             obj = obj.__call__
             obj.__code__.co_filename
